@@ -55,6 +55,8 @@ def tasks(tier, seed):
     V = families.value_programs(tier, seed)
     P += families.select(V, 70 if tier == "quick" else 1500, seed)
     P += families.corpus(["lorentz.ode", "fitzhughnagumo.ode"] if tier == "quick" else None)
+    from .. import gen
+    P += gen.programs(tier, seed, 150, 1500, "std")
     out = [dict(p, opts={}) for p in P]
     # models imported from Myokit: the imported ODE cannot be generated from before it is saved (its intermediates have no
     # value), so the reference for "save + reload preserves the model" is the Myokit expression tree that was imported
@@ -113,9 +115,17 @@ def work(task):
         return prog.result()
     d0, d1 = decl_info(m0, prog.ctx), decl_info(m1, prog.ctx)
     prog.fact("decl|names", set(d0) == set(d1), "AtomsChanged", f"declared names differ: {sorted(set(d0) ^ set(d1))}")
+    # units / descriptions: the LOADED model is the baseline of this property (the loader itself drops quote characters
+    # inside a description - "Faraday's" is loaded as "Faradays" - which save + reload then preserve)
+    def real_meta(ode):
+        return {a.name: ((getattr(a, "unit_str", None) or None), (getattr(a, "description", None) or None))
+                for a in list(ode.states) + list(ode.parameters)}
+    rm0, rm1 = real_meta(ode0), real_meta(ode1)
     for n in sorted(set(d0) & set(d1)):
         k0, v0, meta0, c0 = d0[n]
         k1, v1, meta1, c1 = d1[n]
+        if n in rm0 and n in rm1:
+            meta0, meta1 = rm0[n], rm1[n]
         ok = k0 == k1 and c0 == c1 and (meta0[0] or None) == (meta1[0] or None) and (meta0[1] or None) == (meta1[1] or None)
         okv = (v0 is None and v1 is None) or (v0 is not None and v1 is not None and abs(v0 - v1) <= 1e-12 * (1 + abs(v0)))
         prog.fact(f"decl|{n}", ok and okv, "AtomChanged", f"{n}: {d0[n]} saved/reloaded as {d1[n]}")
